@@ -111,6 +111,73 @@ static void build_samples(Samples &S, SplitMix &g)
 	      if (un.find("-----BEGIN") == 0) { cur = un; in = true; } else if (in) cur += un; if (in && un.find("-----END") == 0) { S.armors.push_back(cur); in = false; } } } }
 }
 
+// ---- structured OpenPGP signature packets: every subpacket type with body lengths at and around the
+// limits the decoder knows (fixed-size context arrays), in the hashed or unhashed area
+typedef std::vector<unsigned char> Oct;
+static void put_newlen(Oct &o, size_t n)
+{
+	if (n < 192) o.push_back((unsigned char)n);
+	else if (n < 8384) { n -= 192; o.push_back((unsigned char)((n >> 8) + 192)); o.push_back((unsigned char)(n & 0xFF)); }
+	else { o.push_back(0xFF); o.push_back((unsigned char)(n >> 24)); o.push_back((unsigned char)(n >> 16)); o.push_back((unsigned char)(n >> 8)); o.push_back((unsigned char)n); }
+}
+static Oct small_sig_body(SplitMix &g, const Oct &hashed, const Oct &unhashed)
+{
+	Oct b; b.push_back(4); b.push_back((unsigned char)(g.below(4) == 0 ? g.below(256) : 0x00)); b.push_back(1); b.push_back(8);
+	b.push_back((unsigned char)(hashed.size() >> 8)); b.push_back((unsigned char)hashed.size()); b.insert(b.end(), hashed.begin(), hashed.end());
+	b.push_back((unsigned char)(unhashed.size() >> 8)); b.push_back((unsigned char)unhashed.size()); b.insert(b.end(), unhashed.begin(), unhashed.end());
+	b.push_back(0x12); b.push_back(0x34);
+	size_t bits = 8 + g.below(64); b.push_back((unsigned char)(bits >> 8)); b.push_back((unsigned char)bits); for (size_t i = 0; i < (bits + 7) / 8; i++) b.push_back((unsigned char)(i ? g.below(256) : 0x80 | g.below(128)));
+	return b;
+}
+// the subpacket types whose bodies are copied into fixed-size arrays of the packet context, with the array size
+static const struct { int type; size_t limit; } BOUNDED[] = { {6, 2048}, {11, 32}, {21, 32}, {22, 32}, {23, 2048}, {24, 2048}, {26, 2048}, {27, 32}, {28, 2048}, {29, 2048}, {30, 32}, {31, 2048}, {34, 32}, {20, 2048} };
+static Oct gen_subpacket(SplitMix &g, int depth, int fixed_type = -1, size_t fixed_len = 0);
+static Oct gen_subpacket(SplitMix &g, int depth, int fixed_type, size_t fixed_len)
+{
+	static const int types[] = { 2, 3, 4, 5, 6, 7, 9, 10, 11, 12, 16, 20, 21, 22, 23, 24, 25, 26, 27, 28, 29, 30, 31, 32, 33, 34, 35, 37, 39, 0, 1, 8, 100, 110, 127 };
+	static const size_t lens[] = { 0, 1, 2, 3, 4, 5, 6, 8, 16, 20, 21, 22, 23, 32, 33, 34, 36, 64, 65, 190, 191, 192, 193, 254, 255, 256, 257, 1023, 1024, 1025, 2046, 2047, 2048, 2049, 2050, 2051, 2052, 4095, 4096, 4097, 8191, 8192, 8193, 16384 };
+	int type = types[g.below(sizeof(types) / sizeof(types[0]))];
+	size_t n = lens[g.below(sizeof(lens) / sizeof(lens[0]))];
+	for (auto &b : BOUNDED) if (b.type == type && g.below(5) < 3) n = b.limit - 1 + g.below(5); // at and just beyond the array size
+	if (fixed_type >= 0) { type = fixed_type; n = fixed_len; }
+	Oct body;
+	if (type == 32 && depth < 2 && g.below(3)) { Oct none; body = small_sig_body(g, g.coin() ? gen_subpacket(g, depth + 1) : none, none); }
+	else { if (fixed_type < 0 && (type == 31 || type == 20) && g.coin()) { n += (type == 31) ? 2 : 8; } for (size_t i = 0; i < n; i++) body.push_back((unsigned char)(i < 8 && g.below(3) == 0 ? g.below(24) : g.below(256))); }
+	if (type == 31 && body.size() >= 2) { body[0] = 1; body[1] = 8; }
+	if (type == 20 && body.size() >= 8 && g.coin()) { size_t rest = body.size() - 8, nl = g.below(rest + 1); body[0] = 0x80; body[1] = body[2] = body[3] = 0; body[4] = (unsigned char)(nl >> 8); body[5] = (unsigned char)nl; body[6] = (unsigned char)((rest - nl) >> 8); body[7] = (unsigned char)(rest - nl); }
+	Oct sp; put_newlen(sp, body.size() + 1); sp.push_back((unsigned char)(type | (g.below(6) == 0 ? 0x80 : 0))); sp.insert(sp.end(), body.begin(), body.end());
+	return sp;
+}
+static std::string armor_of_sig(SplitMix &g, const Oct &hashed, const Oct &unhashed)
+{
+	Oct body = small_sig_body(g, hashed, unhashed), pkt; pkt.push_back(0xC2); put_newlen(pkt, body.size()); pkt.insert(pkt.end(), body.begin(), body.end());
+	tmcg_openpgp_octets_t oct(pkt.begin(), pkt.end()); std::string out;
+	CallasDonnerhackeFinneyShawThayerRFC4880::ArmorEncode(TMCG_OPENPGP_ARMOR_SIGNATURE, oct, out);
+	return out;
+}
+// one subpacket of the given type and body length, optionally behind an embedded signature, hashed or unhashed area
+static std::string gen_sig_armor_fixed(SplitMix &g, int type, size_t len, bool embedded_first, bool in_hashed)
+{
+	Oct area, other;
+	if (embedded_first) { Oct none, e = small_sig_body(g, none, none), sp; put_newlen(sp, e.size() + 1); sp.push_back(32); sp.insert(sp.end(), e.begin(), e.end()); area = sp; }
+	Oct sp = gen_subpacket(g, 0, type, len); area.insert(area.end(), sp.begin(), sp.end());
+	return in_hashed ? armor_of_sig(g, area, other) : armor_of_sig(g, other, area);
+}
+static std::string gen_sig_armor(SplitMix &g)
+{
+	Oct hashed, unhashed;
+	size_t k = 1 + g.below(3);
+	for (size_t i = 0; i < k; i++) { Oct sp = gen_subpacket(g, 0); Oct &area = g.below(3) ? hashed : unhashed; if (area.size() + sp.size() < 65000) area.insert(area.end(), sp.begin(), sp.end()); }
+	if (g.below(4) == 0) { // an embedded signature first, then the rest (a live pointer in the context while later subpackets are decoded)
+		Oct none, e = small_sig_body(g, none, none), sp; put_newlen(sp, e.size() + 1); sp.push_back(32); sp.insert(sp.end(), e.begin(), e.end());
+		if (hashed.size() + sp.size() < 65000) hashed.insert(hashed.begin(), sp.begin(), sp.end()); }
+	Oct body = small_sig_body(g, hashed, unhashed), pkt; pkt.push_back(0xC2); put_newlen(pkt, body.size()); pkt.insert(pkt.end(), body.begin(), body.end());
+	if (g.below(5) == 0) { Oct again = pkt; pkt.insert(pkt.end(), again.begin(), again.end()); }
+	tmcg_openpgp_octets_t oct(pkt.begin(), pkt.end()); std::string out;
+	CallasDonnerhackeFinneyShawThayerRFC4880::ArmorEncode(TMCG_OPENPGP_ARMOR_SIGNATURE, oct, out);
+	return out;
+}
+
 static int drv_parse(const Opts &o)
 {
 	SplitMix g(o.seed ^ 0x70617273);
@@ -147,6 +214,11 @@ static int drv_parse(const Opts &o)
 		{ "pgp.radix64_decode", nullptr, [&](const std::string &in) { tmcg_openpgp_octets_t out; CallasDonnerhackeFinneyShawThayerRFC4880::Radix64Decode(in, out); return std::string("ok"); } },
 		{ "pgp.pubkeyblock_parse", nullptr, [&](const std::string &in) { TMCG_OpenPGP_Pubkey *pub = NULL; bool r = CallasDonnerhackeFinneyShawThayerRFC4880::PublicKeyBlockParse(in, 0, pub); if (r && pub) delete pub; return grpchk(r); } },
 		{ "pgp.signature_parse", nullptr, [&](const std::string &in) { TMCG_OpenPGP_Signature *sig = NULL; bool r = CallasDonnerhackeFinneyShawThayerRFC4880::SignatureParse(in, 0, sig); if (r && sig) delete sig; return grpchk(r); } },
+		{ "pgp.signatures_parse", nullptr, [&](const std::string &in) { TMCG_OpenPGP_Signatures sigs; bool r = CallasDonnerhackeFinneyShawThayerRFC4880::SignaturesParse(in, 0, sigs); for (size_t i = 0; i < sigs.size(); i++) delete sigs[i]; return grpchk(r); } },
+		{ "pgp.packet_decode", nullptr, [&](const std::string &in) { tmcg_openpgp_octets_t oct; if (!CallasDonnerhackeFinneyShawThayerRFC4880::ArmorDecode(in, oct)) return std::string("reject");
+			size_t n = 0; while (!oct.empty() && n++ < 64) { tmcg_openpgp_packet_ctx_t ctx; tmcg_openpgp_octets_t cur; tmcg_openpgp_notations_t nt; tmcg_openpgp_multiple_octets_t es, rf;
+				tmcg_openpgp_byte_t tag = CallasDonnerhackeFinneyShawThayerRFC4880::PacketDecode(oct, 0, ctx, cur, nt, es, rf); CallasDonnerhackeFinneyShawThayerRFC4880::PacketContextRelease(ctx); if (tag == 0 || tag == 0xFA || tag == 0xFB || tag == 0xFC || tag == 0xFD || tag == 0xFE) return std::string("reject"); }
+			return std::string("ok"); } },
 		{ "pgp.message_parse", nullptr, [&](const std::string &in) { TMCG_OpenPGP_Message *msg = NULL; bool r = CallasDonnerhackeFinneyShawThayerRFC4880::MessageParse(in, 0, msg); if (r && msg) delete msg; return grpchk(r); } },
 		{ "pgp.prvkeyblock_parse", nullptr, [&](const std::string &in) { TMCG_OpenPGP_Prvkey *prv = NULL; bool r = CallasDonnerhackeFinneyShawThayerRFC4880::PrivateKeyBlockParse(in, 0, "", prv); if (r && prv) delete prv; return grpchk(r); } },
 		{ "pgp.keyring_parse", nullptr, [&](const std::string &in) { TMCG_OpenPGP_Keyring *ring = NULL; bool r = CallasDonnerhackeFinneyShawThayerRFC4880::PublicKeyringParse(in, 0, ring); if (r && ring) delete ring; return grpchk(r); } },
@@ -161,12 +233,21 @@ static int drv_parse(const Opts &o)
 		for (auto &t : targets) if (o.val("--replay") == t.name) { std::string r = guarded([&]() { return t.f(ss.str()); }); emit(std::string("prop.parse.") + t.name + " replay => " + r); }
 		return 0;
 	}
+	// every run: each bounded subpacket type with body lengths around its array size (and the extra octets some types carry)
+	for (auto &b : BOUNDED) for (size_t len = b.limit - 1; len <= b.limit + 4; len++) for (int emb = 0; emb < 2; emb++) {
+		std::string input = gen_sig_armor_fixed(g, b.type, len + (b.type == 20 ? 8 : 0), emb == 1, (len + emb) % 2 == 0);
+		for (auto &t : targets) { std::string tn = t.name; if (tn != "pgp.signatures_parse" && tn != "pgp.packet_decode") continue;
+			std::string out = in_child(t.f, input);
+			std::string hx = hexs(input); if (hx.size() > 1200 && out.compare(0, 4, "trap") && out != "timeout") hx = hx.substr(0, 1200) + "..";
+			emit(std::string("prop.parse.") + t.name + " " + hx + " => " + out); }
+	}
 	for (uint64_t c = 0; c < o.cases; c++) {
 		for (size_t ti = 0; ti < targets.size(); ti++) {
 			const T &t = targets[ti];
 			std::string input;
 			if (t.sample) input = (c == 0) ? *t.sample : mutate(*t.sample, g);
-			else { if (S.armors.empty()) continue; const std::string &a = S.armors[g.below(S.armors.size())]; input = (c == 0) ? a : (g.coin() ? mutate(a, g) : pgp_binary_mutation(a)); }
+			else { if (S.armors.empty()) continue; const std::string &a = S.armors[g.below(S.armors.size())]; input = (c == 0) ? a : (g.coin() ? mutate(a, g) : pgp_binary_mutation(a));
+				std::string tn = t.name; if (c > 0 && (tn == "pgp.signature_parse" || tn == "pgp.signatures_parse" || tn == "pgp.packet_decode") && g.below(4)) input = gen_sig_armor(g); }
 			if (c > 0 && g.below(3) == 0) input = mutate(input, g); // double mutation
 			std::string out = in_child(t.f, input);
 			std::string hx = hexs(input); if (hx.size() > 1200 && out.compare(0, 4, "trap") && out != "timeout") hx = hx.substr(0, 1200) + "..";
